@@ -555,6 +555,10 @@ def failing_items():
     out.append(("generator-in-generator", fr(["i"], [call("outergen", I(2))], assign("gw", N("i"))), [assign("i", I(1)), assign("gw", I(1))]))
     out.append(("in-call-in-loop-in-fn", block([assign("ga", I(9)), call("lf")]), [assign("ga", I(9))]))
     out.append(("read-error", block([assign("ga", I(4)), call("read")]), [assign("ga", I(4))]))
+    out.append(("function-bound-before-failure", block([assign("gf", fn(["x"], bin_("+", N("x"), I(1)))), assign("ga", I(8)), call("boom", I(1), I(0))]),
+                [assign("gf", fn(["x"], bin_("+", N("x"), I(1)))), assign("ga", I(8))]))
+    out.append(("function-bound-in-loop-before-failure", fr(["i"], [call("fromto", I(0), I(2))], block([assign("gf", fn(["x"], bin_("*", N("x"), bin_("+", N("i"), I(2))))), iff(bin_("==", N("i"), I(1)), call("boom", I(0), I(2)))])),
+                [assign("i", I(1)), assign("gf", fn(["x"], bin_("*", N("x"), I(3))))]))
     out.append(("while-cond-type", block([assign("ga", I(3)), wh(I(1), I(2))]), [assign("ga", I(3))]))
     out.append(("parse-lexer", {"perr": True, "src": "ga = 1 $ 2"}, []))
     out.append(("parse-parser", {"perr": True, "src": "ga = 1 +"}, []))
@@ -579,8 +583,9 @@ def c08_families(tier, seed, ids=None):
     rnd = random.Random(seed)
     fails = failing_items()
     prelude = [BOOM, BADGEN, OUTERGEN, assign("lf", fn([], fr(["z"], [call("fromto", I(0), I(2))], call("boom", I(2), I(0))))),
-               assign("ga", I(0)), assign("gb", I(0)), assign("gc", I(0)), assign("gl", I(0)), assign("gw", I(0)), assign("gq", I(0)), assign("i", I(0))]
-    probe = call("toa", lst([N("ga"), N("gb"), N("gc"), N("gl"), N("gw"), N("gq"), N("i")]))
+               assign("ga", I(0)), assign("gb", I(0)), assign("gc", I(0)), assign("gl", I(0)), assign("gw", I(0)), assign("gq", I(0)), assign("i", I(0)),
+               assign("gf", fn(["x"], bin_("-", N("x"), I(1))))]
+    probe = call("toa", lst([N("ga"), N("gb"), N("gc"), N("gl"), N("gw"), N("gq"), N("i"), call("gf", I(41))]))
     ss, twins = [], []
     n = 60 if tier == "quick" else 2500
     pairs = []
@@ -636,7 +641,11 @@ c08_rule = ("sessions of 20+ items on one VM: state-threading good statements wi
 def c09_forms():
     return [("expr", bin_("+", bin_("*", N("gx"), I(2)), I(1))), ("assign", assign("t", bin_("+", N("gx"), I(1)))),
             ("if-const", iff(Bo(True), I(5))), ("if-computed", iff(bin_("<", N("gx"), I(999)), I(5))), ("if-false", iff(bin_(">", N("gx"), I(999)), I(5))),
-            ("ifelse", ife(bin_("<", N("gx"), I(2)), I(5), St("a"))), ("while", wh(bin_("<", N("gx"), I(0)), I(1))),
+            ("ifelse", ife(bin_("<", N("gx"), I(2)), I(5), St("a"))),
+            ("ifelse-else-call", ife(bin_(">", N("gx"), I(999)), assign("t", I(2)), call("id", N("gx")))),
+            ("ifelse-else-op", ife(bin_(">", N("gx"), I(999)), assign("t", I(2)), bin_("+", N("gx"), I(1)))),
+            ("ifelse-then-op", ife(bin_("<", N("gx"), I(999)), bin_("*", N("gx"), I(2)), assign("t", I(2)))),
+            ("ifelse-both-index", ife(bin_(">", N("gx"), I(999)), ix1(lst([I(1)]), I(0)), ix1(St("ab"), bin_("-", N("gx"), N("gx"))))), ("while", wh(bin_("<", N("gx"), I(0)), I(1))),
             ("for", fr(["w"], [call("fromto", I(0), I(2))], N("w"))), ("for2", fr(["w", "u"], [call("fromto", I(0), I(2)), call("fromto", I(0), I(3))], N("u"))),
             ("for2-second-shorter", fr(["w", "u"], [call("fromto", I(0), I(3)), call("fromto", I(0), I(1))], N("w"))),
             ("for2-second-empty", fr(["w", "u"], [call("elems", St("ab")), call("fromto", I(1), I(1))], N("w"))),
@@ -731,6 +740,8 @@ def c10_ops():
         ops.append(("iter", lambda t=t: fr(["q"], [call("elems", N(t))], N("q"))))
         ops.append(("capture", lambda t=t: assign("kcl", call("mkcl", N(t)))))
         ops.append(("lit", lambda t=t: assign(t, call("lit"))))
+        ops.append(("prefixlit3", lambda t=t: assign(t, call("pla", un("#", N(t))))))
+        ops.append(("prefixlit5", lambda t=t: assign(t, call("plb", un("#", N(t))))))
         ops.append(("litloop", lambda t=t: fr(["q"], [call("fromto", I(0), I(2))], assign(t, bin_("+", call("lit"), lst([N("q")]))))))
     return ops
 
@@ -741,10 +752,12 @@ def c10_families(tier, seed, ids=None):
     prelude = [assign("cat", fn(["x"], bin_("+", N("x"), lst([I(7)])))), assign("lit", fn([], lst([I(1), I(2), I(3)]))),
                assign("reclit", fn(["n"], ife(bin_("==", N("n"), I(0)), lst([I(4), I(5)]), bin_("+", call("reclit", bin_("-", N("n"), I(1))), lst([I(6)]))))),
                assign("mkcl", fn(["a"], fn([], N("a")))), assign("kcl", call("mkcl", lst([I(0)]))),
+               assign("pla", fn(["x"], lst([I(1), I(2), I(3), N("x")]))), assign("plb", fn(["x"], lst([I(1), I(2), I(3), I(4), I(5), N("x"), bin_("+", N("x"), I(1))]))),
                assign("va", lst([I(1), I(2), I(3), I(4)])), assign("vb", lst([I(5), I(6)])), assign("vc", lst([lst([I(1)]), lst([I(2), I(3)])])), assign("vd", lst([]))]
     sprelude = [assign("cat", fn(["x"], bin_("+", N("x"), St("z")))), assign("lit", fn([], St("lmn"))),
                 assign("reclit", fn(["n"], ife(bin_("==", N("n"), I(0)), St("rs"), bin_("+", call("reclit", bin_("-", N("n"), I(1))), St("t"))))),
                 assign("mkcl", fn(["a"], fn([], N("a")))), assign("kcl", call("mkcl", St("k"))),
+                assign("pla", fn(["x"], bin_("+", St("123"), call("toa", N("x"))))), assign("plb", fn(["x"], bin_("+", St("12345"), call("toa", N("x"))))),
                 assign("va", St("abcd")), assign("vb", St("ef")), assign("vc", St("g")), assign("vd", St(""))]
     probe = call("toa", lst([N("va"), N("vb"), N("vc"), N("vd"), call("kcl"), call("lit"), call("reclit", I(2))]))
     ops = c10_ops()
@@ -804,20 +817,31 @@ def c12_families(tier, seed, ids=None):
     for tname, init in inits.items():
         for scope in ("global", "local"):
             variants = {"x=x+1": [assign("x", bin_("+", N("x"), I(1)))], "x=1+x": [assign("x", bin_("+", I(1), N("x")))],
-                        "t=x;x=t+1": [assign("t", N("x")), assign("x", bin_("+", N("t"), I(1)))]}
+                        "t=x;x=t+1": [assign("t", N("x")), assign("x", bin_("+", N("t"), I(1)))],
+                        "x=x+1.0": [assign("x", bin_("+", N("x"), Fl(1, 0)))], "x=1.0+x": [assign("x", bin_("+", Fl(1, 0), N("x")))],
+                        "t=x;x=t+1.0": [assign("t", N("x")), assign("x", bin_("+", N("t"), Fl(1, 0)))]}
             for vname, stmts in variants.items():
                 pre = [assign("x", init)] if init is not None else []
+                tail = [N("x"), bin_("/", N("x"), I(3)), call("toa", N("x"))]
                 if scope == "global":
-                    items = pre + stmts + [N("x")]
+                    items = pre + stmts + tail
                 else:
-                    items = [assign("f", fn([], block(pre + stmts + [N("x")]))), call("f")]
+                    items = [assign("f", fn([], block(pre + stmts + [lst(tail)] if tname != "nil" else pre + stmts + [N("x")]))), call("f")]
                 rw.append(mk(ids, items, {"rewrite": "inc", "type": tname, "scope": scope, "variant": vname}))
-    es = gens.ATOMS + gens.SMALL + [fn([], I(1)), lst([N("x"), lst([N("x")])]), call("id", N("a")), bin_("-", N("x"), Fl(1, 1))]
+                if init is not None:
+                    # the first assignment to x inside a function increments the *outer* x (global, or captured from the definer)
+                    rw.append(mk(ids, [assign("x", init), assign("f", fn([], block(stmts + [N("x")]))), call("f"), N("x"), call("f")], {"rewrite": "inc-outer-global", "type": tname, "variant": vname}))
+                    rw.append(mk(ids, [assign("mkc", fn(["x"], fn([], block(stmts + [N("x")])))), assign("cnt", call("mkc", init)), call("cnt"), call("cnt")], {"rewrite": "inc-outer-captured", "type": tname, "variant": vname}))
+    es = gens.ATOMS + gens.SMALL + [fn([], I(1)), lst([N("x"), lst([N("x")])]), call("id", N("a")), bin_("-", N("x"), Fl(1, 1)),
+                                    un("#", lst([I(1)])), ix1(lst([I(1), I(2)]), I(0)), ix2(lst([I(1), I(2)]), I(0), I(1)), un("!", bin_("==", lst([I(1)]), lst([I(2)]))), fn(["p"], N("p")),
+                                    un("-", lst([I(1)])), bin_("+", lst([I(1)]), lst([N("x")]))]
     for op in props_allops():
         for e in es:
             rw.append(mk(ids, gens.PRELUDE + [bin_(op, e, e)], {"rewrite": "e op e", "op": op, "e": pe(e), "variant": "direct"}))
             rw.append(mk(ids, gens.PRELUDE + [assign("t", e), bin_(op, N("t"), N("t"))], {"rewrite": "e op e", "op": op, "e": pe(e), "variant": "via t"}))
             rw.append(mk(ids, gens.PRELUDE + [assign("g", fn([], bin_("+", bin_(op, e, e), I(0)) if op in ("+", "-", "*") else bin_(op, e, e))), call("g")], {"rewrite": "e op e", "op": op, "e": pe(e), "variant": "fn"}))
+            rw.append(mk(ids, gens.PRELUDE + [bin_("==", bin_(op, e, e), bin_(op, e, e)), un("!", bin_("==", bin_(op, e, e), I(0))) if op in ("+", "-", "*", "/", "%", "&", "|", "<<", ">>") else un("!", bin_(op, e, e))],
+                         {"rewrite": "e op e", "op": op, "e": pe(e), "variant": "depth1"}))
     conds = [Bo(True), Bo(False), bin_("<", N("x"), I(2)), bin_("==", N("a"), N("a")), I(1), N("u"), St("a"), lst([]), bin_("+", N("x"), I(1)), call("f", I(1))]
     A, B = bin_("+", N("x"), I(10)), St("else")
     for c in conds:
@@ -899,7 +923,7 @@ def c17_families(tier, seed, ids=None):
         ft.append(mk(ids, [c, fr(["q"], [c], N("q")), I(1)], {"arity": pe(c)}))
     out.append(("fromto / elems / indices / argument errors", ft, ("value",)))
     rd = []
-    inputs = [[], ["a\n"], ["a\n", "b\n"], ["l1\n", "l2\n", "l3\n"], ["\n", "x\n"], ["1\n", "2\n", "3\n", "4\n", "5\n"], ["a\n", "b"], ["only"]]
+    inputs = [["s\n", "x" * 4095 + "\n", "y" * 5000 + "\n", "t\n"], [], ["a\n"], ["a\n", "b\n"], ["l1\n", "l2\n", "l3\n"], ["\n", "x\n"], ["1\n", "2\n", "3\n", "4\n", "5\n"], ["a\n", "b"], ["only"]]
     for inp in inputs:
         for nreads in range(0, 5):
             for inter in ("plain", "writes", "error", "in-function", "in-loop"):
@@ -919,7 +943,8 @@ def c17_families(tier, seed, ids=None):
                     reads = [assign("acc", lst([])), fr(["q"], [call("fromto", I(0), I(nreads))], assign("acc", bin_("+", N("acc"), lst([call("read")])))), N("acc")]
                 rd.append(mk(ids, [assign("rd", fn([], bin_("+", St(">"), call("read"))))] + reads + [I(1)], {"read": [inp, nreads, inter]}, stdin=inp))
     if tier == "quick":
-        rd = rnd.sample(rd, 80)
+        keep = [x for x in rd if len(x["meta"]["read"][0]) == 4 and len(x["meta"]["read"][0][1]) > 4000 and x["meta"]["read"][1] == 4]
+        rd = keep + rnd.sample(rd, 80)
     out.append(("sequences of read() against piped input", rd, ("value",)))
     return out
 
@@ -960,7 +985,7 @@ def c19_families(tier, seed, ids=None):
         ss.append(mk(ids, base + [assign("mkf", fn(["q"], fn(["b"], e))), assign("dv", call("mkf", I(9))), call("dv", I(0))], {"err": ename, "where": "closure"}))
         ss.append(mk(ids, base + [assign("f", fn(["q"], block([assign("q", bin_("+", N("q"), I(100))), e]))), call("f", I(1))], {"err": ename, "where": "param-reassigned"}))
         ss.append(mk(ids, base + [assign("g", fn(["q"], fr(["i"], [call("fromto", I(0), I(3))], iff(bin_("==", N("i"), I(1)), e)))), call("g", I(13))], {"err": ename, "where": "loop-body"}))
-        ss.append(mk(ids, base + [assign("f", fn(["q"], block([y(I(1)), e, y(I(2))]))), assign("g", fn(["x"], fr(["i"], [call("f", I(5))], call("write", bin_("+", N("i"), N("x")))))), assign("h", fn([], call("g", I(13)))), call("h")], {"err": ename, "where": "in-generator"}))
+        ss.append(mk(ids, base + [assign("f", fn(["q"], block([y(I(1)), e, y(I(2))]))), assign("g", fn(["x"], fr(["i"], [call("f", I(5))], call("write", bin_("+", N("i"), N("x")))))), assign("h", fn([], call("g", I(13)))), call("h"), assign("half", fn(["n"], bin_("/", I(10), N("n")))), call("half", I(0)), call("h"), call("half", I(0))], {"err": ename, "where": "in-generator"}))
         ss.append(mk(ids, base + [assign("f", fn(["q"], block([y(N("q")), e]))), assign("m", fn(["it"], fr(["e"], [call("it", I(4))], y(bin_("*", N("e"), I(2)))))),
                                   assign("top", fn(["z"], fr(["v"], [call("m", N("f"))], N("v")))), call("top", I(8))], {"err": ename, "where": "gen-of-gen"}))
         ss.append(mk(ids, base + [assign("f", fn(["q"], block([y(I(1)), e]))), fr(["i"], [call("f", I(3))], N("i"))], {"err": ename, "where": "top-level-gen"}))
@@ -1025,6 +1050,12 @@ def c18_families(tier, seed, ids=None):
                              assign("keep", fn(["n", "v"], ife(bin_("==", N("n"), I(0)), N("v"), block([assign("loc", bin_("+", N("v"), I(1))), assign("r", call("keep", bin_("-", N("n"), I(1)), N("v"))), bin_("-", bin_("+", N("r"), N("loc")), N("loc"))])))),
                              call("keep", I(d), I(7)), I(1)], {"recursion_depth": d}))
     out.append(("recursion depth limited only by memory", deep, ("value", "residue")))
+    probe = assign("probe", fn([], block([iff(bin_(">", N("gzero"), I(0)), block([assign("pa", I(1)), assign("pb", I(2)), assign("pc", I(3))])), bin_("+", bin_("+", call("toa", N("pa")), call("toa", N("pb"))), call("toa", N("pc")))])))
+    dp = assign("deepp", fn(["n"], ife(bin_("==", N("n"), I(0)), call("probe"), call("deepp", bin_("-", N("n"), I(1))))))
+    sweep = []
+    for lo in range(40, 140, 20 if tier == "quick" else 5):
+        sweep.append(mk(ids, [assign("gzero", I(0)), probe, dp] + [call("deepp", I(d)) for d in range(lo, lo + (20 if tier == "quick" else 5))] + [call("deepp", I(lo))], {"unassigned_locals_at_depths": [lo]}))
+    out.append(("unassigned locals are nil at every stack height", sweep, ("value", "residue")))
     return out
 
 
